@@ -20,6 +20,7 @@ import PoetryVerif.Proofs.VRangeTextV
 import PoetryVerif.Proofs.VRangeTextW
 import PoetryVerif.Proofs.VRangeTextP
 import PoetryVerif.Proofs.VRangeTextX
+import PoetryVerif.Proofs.VRangeTextY
 
 set_option linter.unusedSimpArgs false
 set_option linter.unusedVariables false
@@ -449,6 +450,42 @@ example : let mn := Version.mk' 0 [1] none none (some ⟨.dev, 0⟩) none
   intro mn mx
   exact ⟨by decide, by decide, by decide +kernel, by decide +kernel⟩
 
+/-- **wildcards on post-releases** (`==1.0.post0.*`): any range whose lower end is a post-release and which the
+printer spells with a wildcard prints as `first.without_devrelease().text + ".*"`; `BASIC_CONSTRAINT` reads the
+post-release back, `_make_x_constraint_range` builds `[V.dev0, next_postrelease(V).dev0)`, and the re-read range
+admits the same versions on EVERY version -/
+theorem post_wildcard_spelt_range_text_roundtrip (mn mx : Version)
+    (hwf : (⟨some mn, some mx, true, false⟩ : VRange).WF)
+    (hw : isWildcardCandidate mn mx false = true) (hp : mn.isPostrelease = true) :
+    ∃ s c', (VC.single (.rng ⟨some mn, some mx, true, false⟩)).toStr = .ok s ∧ parseConstraint s = .ok c' ∧
+      ∀ p, p.wf = true → c'.allows p = (VC.single (.rng ⟨some mn, some mx, true, false⟩)).allows p :=
+  post_wildcard_spelt_roundtrip mn mx hwf hw hp
+
+/-- **every well-formed range the printer spells with a wildcard** (`is_single_wildcard_range`) **round-trips
+membership-equivalently on every version** — post-release or not, parser-built or algebra-produced -/
+theorem every_wildcard_spelt_range_text_roundtrip (r : VRange) (hwf : r.WF) (hw : r.isSingleWildcardRange = true) :
+    ∃ s c', (VC.single (.rng r)).toStr = .ok s ∧ parseConstraint s = .ok c' ∧
+      ∀ p, p.wf = true → c'.allows p = (VC.single (.rng r)).allows p := by
+  obtain ⟨mn, mx, i, j⟩ := r
+  cases mn with
+  | none => simp [VRange.isSingleWildcardRange] at hw
+  | some mn =>
+    cases mx with
+    | none => simp [VRange.isSingleWildcardRange] at hw
+    | some mx =>
+      simp only [VRange.isSingleWildcardRange] at hw
+      cases i <;> cases j <;> simp at hw
+      by_cases hp : mn.isPostrelease = true
+      · exact post_wildcard_spelt_roundtrip mn mx hwf hw hp
+      · exact wildcard_spelt_roundtrip mn mx hwf hw (by simpa using hp)
+
+example : let mn := Version.mk' 0 [1, 0] none (some ⟨.post, 0⟩) (some ⟨.dev, 0⟩) none
+    let mx := Version.mk' 0 [1] none (some ⟨.post, 1⟩) none none
+    isWildcardCandidate mn mx false = true ∧ mn.isPostrelease = true ∧
+    (VC.single (.rng ⟨some mn, some mx, true, false⟩)).toStr = .ok "==1.0.post0.*" := by
+  intro mn mx
+  exact ⟨by decide, by decide, by decide +kernel⟩
+
 /-- **ANY two-member union `<A || >=B` the printer spells `!=X.*` is read back as a union admitting the same versions,
 on EVERY version** (`A` not a post-release) — the real `allows` of both unions, `excludes_single_version` included -/
 theorem wildcard_spelt_union_text_roundtrip (omax tmin : Version) (ho : omax.wf = true) (ht : tmin.wf = true)
@@ -490,7 +527,8 @@ whatever the texts of its bounds — it is false (`counterexample_text_trailing_
 what the user wrote).  The wildcard spellings `==X.*` / `!=X.*` are proved for the constraints the parser builds
 for wildcard clauses (`wildcard_eq_text_roundtrip`, `wildcard_ne_text_roundtrip`); and any range the printer spells `==X.*` is read back
 membership-equivalently on every version (`wildcard_spelt_range_text_roundtrip`), likewise any two-member union spelt `!=X.*`
-(`wildcard_spelt_union_text_roundtrip`); not proved: wildcards on post-releases (`==1.0.post1.*`) — on the real code a grid of
+(`wildcard_spelt_union_text_roundtrip`), and wildcards on post-releases (`post_wildcard_spelt_range_text_roundtrip`;
+altogether `every_wildcard_spelt_range_text_roundtrip`); not proved: unions spelt `!=X.postK.*` (`==1.0.post1.*`) — on the real code a grid of
 128 wildcard-spelt ranges and 102 wildcard-spelt unions (post-releases included) re-parses membership-equivalently. -/
 def text_roundtrip_full_statement : Prop :=
   ∀ c : VC, c.WF → c.isEmpty = false →
